@@ -729,7 +729,7 @@ def run(ctx):
                       exhaustive_profiles='layer counts 2..%d on the decade grid, smoothing windows 0..300%%, constant/two-point/two-layer/array' % (8 if q else 14),
                       layer_counts='binding B: every n in 2..30%s' % (' + 24 seeded counts of 31..120' if q else ' and 31..120'),
                       settings='2..4 fill gases (1..3 ratio parameters), 0..2 trace gases, <=%d writes through the fitting parameters with evaluations in between' % (2 if q else 3),
-                      histories='Functional.tla walks (depth 9, 3 settings x 3 values) over 16 gas scenarios and 7 chemistry scenarios')
+                      histories='Functional.tla walks (depth 9, 3 settings x 3 values) over 17 gas scenarios and 7 chemistry scenarios')
     ctx.assumptions = ['element weight table (taurex.util.util.mass) is input data; parsing, summation and weighting are re-done independently',
                        'float 10**k and log10 are exact to 1e-12 on the integer decade grid',
                        'TLC + CommunityModules Json/IOUtils', 'opacity fixtures subclass InterpolatingOpacity only to announce a molecule',
